@@ -267,6 +267,26 @@ func c16PartialWrites(rc *simrt.RunCtx) {
 					rc.Violate("c16.partial-write", "flush-swallowed-timeout", "payload %dB cuts %v: Flush over a writer that timed out after %d bytes returned err=%v", size, cuts, cuts[k], err)
 					return false
 				}
+				// the connection is full duplex: while the record is pending,
+				// the same machine receives one from its peer (every other
+				// case, after the first timeout)
+				if k == 0 && cases%2 == 0 {
+					back := marker(uint64(cases)*31+5, 1+cases%40)
+					var rev bytes.Buffer
+					if err := r.WriteMessage(back); err != nil {
+						rc.Violate("c16.partial-write", "reverse-write-failed", "the peer's WriteMessage failed: %v", err)
+						return false
+					}
+					if _, err := r.Flush(&rev); err != nil {
+						rc.Violate("c16.partial-write", "reverse-write-failed", "the peer's Flush failed: %v", err)
+						return false
+					}
+					gotBack, err := w.ReadMessage(&rev)
+					if err != nil || !eqBytes(gotBack, back) {
+						rc.Violate("c16.partial-write", "reverse-read-while-pending", "payload %dB cuts %v: with %d of %d wire bytes of its own record unflushed the machine cannot read a record from its peer: err=%v, %d bytes", size, cuts, L-cuts[k], L, err, len(gotBack))
+						return false
+					}
+				}
 				// no new record may be started while one is pending
 				if err2 := w.WriteMessage([]byte("next")); !errors.Is(err2, ErrMessageNotFlushed) {
 					rc.Violate("c16.partial-write", "new-record-while-pending", "payload %dB cuts %v: WriteMessage with %d of %d wire bytes still unflushed returned %v instead of ErrMessageNotFlushed", size, cuts, L-cuts[k], L, err2)
